@@ -328,9 +328,12 @@ def rule_count_array(ctx, R="C01/count-array"):
                       "no buffer-growing call between count header and its array",
                       "buffer-growing call(s) between count header and array: %s" % offenders)
         # mutation of the counted collection between count and array
-        mut = mutated_between(b, o, cnt, hb, ab)
-        ctx.check(not mut, R, (key, "stable"), b.where(ab), "counted collection is not mutated between header and array",
-                  "counted collection may be mutated between header and array at %s" % mut)
+        # ... from the moment the count is READ: a `len()` hoisted above the statements that still grow the collection (a second loop of
+        # pushes) announces fewer records than are written although nothing happens between the two allocations
+        ev_sites = sorted({s_[3][1] for s_ in walk(cnt) if s_[0] == "call" and s_[1].split("::")[-1] in ("len", "count") and len(s_) > 3 and s_[3]})
+        mut = sorted({m for st_ in (ev_sites or [hb]) for m in mutated_between(b, o, cnt, st_, ab)} | set(mutated_between(b, o, cnt, hb, ab)))
+        ctx.check(not mut, R, (key, "stable"), b.where(ab), "counted collection is not mutated between the read of its length (%s) and the array" % ("block %s" % ev_sites if ev_sites else "at the header"),
+                  "counted collection may be mutated between the read of its length and the array at %s" % mut)
         n_ok += 1
     ctx.floor(R, "list streams analysed", n_ok, 6)
 
